@@ -30,6 +30,12 @@ ARFF_SPARSE = ['@relation t', '@attribute a numeric', '@attribute b {x,y}', '@at
 ARFF_QUOTES = ['@relation t', '@attribute a string', '@attribute b string', '@attribute c numeric', '@data',
                "'p q',r,1", '"s, t",u,2', "v,'w\"',3"]
 
+# four data lines: no quote, both kinds of quote, single quotes only, double quotes only (the shared line reader adopts
+# its csv dialect from the lines it has parsed so far, i.e. from the ORDER in which the rows are first accessed)
+ARFF_QUOTES4 = ['@relation t', '@attribute a string', '@attribute b string', '@attribute c numeric', '@data',
+                'p,r,1', '"it\'s",u,2', "'s t',v,3", '"w, x",y,4']
+ORDER_SOURCES = ['aq4', 'aq', 'ad', 'adt', 'ae', 'aet', 'as', 'aes', 'lz', 'lzs']
+
 SOURCES = ['dl', 'dc', 'sk', 'si', 'sc', 'ad', 'as', 'aq', 'lz', 'lzs', 'lzr', 'ae', 'aes', 'adt', 'aet']
 
 # tab-delimited twins of the dense ARFF tables (the line reader accepts ',' and TAB); the missing marker ? sits in a
@@ -37,7 +43,7 @@ SOURCES = ['dl', 'dc', 'sk', 'si', 'sc', 'ad', 'as', 'aq', 'lz', 'lzs', 'lzr', '
 _HDR_AD = ['@relation t', '@attribute a numeric', '@attribute b {x,y,z}', '@attribute c string', '@data']
 ARFF_DENSE_TAB = _HDR_AD + ['1\tx\tu', '3\t?\tw', '5\tz\tv', '4\ty\t?']
 _HDR_AE = ['@relation t', '@attribute n numeric', '@attribute s string', '@attribute k {x,?}', '@data']
-ARFF_SPECIAL_TAB = _HDR_AE + ["1\t''\tx", '?\t?\t?', '0\tNone\tx', '2\t\t?', '3\t?\tx']
+ARFF_SPECIAL_TAB = _HDR_AE + ["1\t''\tx", '?\t?\t?', '2\t\t?', '3\t?\tx']
 
 # cell values the lazy rows special-case ('', '?', quoted '?', a level named '?', '0', 'None') in numeric, string and
 # nominal attributes: every access path must treat them like the eager table does
@@ -67,7 +73,9 @@ class Tbl:
     __slots__ = ('kind', 'rows', 'headers', 'missing', 'label', 'plain', 'n', 'arff', 'raw_int_keys')
 
     def __init__(self, kind, rows, headers=None, missing=None, label=None, plain=True, n=None, arff=False, raw_int_keys=False):
-        self.kind = kind; self.rows = rows; self.headers = headers; self.missing = missing; self.label = label
+        if isinstance(headers, list): headers = {h: i for i, h in enumerate(headers)}
+        self.kind = kind; self.rows = rows; self.missing = missing; self.label = label
+        self.headers = headers             # dense: mapping name -> column (may be partial, may give one column two names) or None
         self.plain = plain                 # rows reaching the next stage are real list / dict objects
         self.n = n if n is not None else (len(rows[0]) if rows and kind == 'dense' else 0)
         self.arff = arff
@@ -102,6 +110,9 @@ def source_model(name):
     if name == 'aq':
         return Tbl('dense', [['p q', 'r', 1.0], ['s, t', 'u', 2.0], ['v', 'w"', 3.0]],
                    headers=['a', 'b', 'c'], missing=[False, False, False], plain=False, arff=True)
+    if name == 'aq4':
+        return Tbl('dense', [['p', 'r', 1.0], ["it's", 'u', 2.0], ['s t', 'v', 3.0], ['w, x', 'y', 4.0]],
+                   headers=['a', 'b', 'c'], missing=[False] * 4, plain=False, arff=True)
     if name == 'lz':
         return Tbl('dense', [[ENC[e](v) for e, v in zip(LZ_ENC, r)] for r in LZ_RAW], headers=list(LZ_HDR), missing=[False, False],
                    plain=False, arff=True)
@@ -119,9 +130,8 @@ def source_model(name):
                    headers=['a', 'b', 'c'], missing=[False, True, False, True], plain=False, arff=True)
     if name == 'aet':
         L = ['x', '?']
-        return Tbl('dense', [[1.0, '', cat('x', L)], [None, None, cat('?', L)], [0.0, 'None', cat('x', L)], [2.0, '', cat('?', L)],
-                             [3.0, None, cat('x', L)]],
-                   headers=['n', 's', 'k'], missing=[False, True, False, True, True], plain=False, arff=True)
+        return Tbl('dense', [[1.0, '', cat('x', L)], [None, None, cat('?', L)], [2.0, '', cat('?', L)], [3.0, None, cat('x', L)]],
+                   headers=['n', 's', 'k'], missing=[False, True, True, True], plain=False, arff=True)
     if name == 'aes':
         L = ['0', 'x', '?']
         return Tbl('sparse', [{'a': None, 'b': cat('?', L), 'c': None}, {'b': cat('x', L), 'c': '0'}, {'a': 0.0, 'b': cat('0', L), 'c': '0'}],
@@ -142,6 +152,7 @@ def source_raw(name):
     if name == 'ad': return ('arff', list(ARFF_DENSE))
     if name == 'as': return ('arff', list(ARFF_SPARSE))
     if name == 'aq': return ('arff', list(ARFF_QUOTES))
+    if name == 'aq4': return ('arff', list(ARFF_QUOTES4))
     if name == 'ae': return ('arff', list(ARFF_SPECIAL))
     if name == 'adt': return ('arff', list(ARFF_DENSE_TAB))
     if name == 'aet': return ('arff', list(ARFF_SPECIAL_TAB))
@@ -165,13 +176,12 @@ def m_apply(t: Tbl, st):
     if not t.rows: raise Precond('no rows left')
     if k == 'head':                        # dense: list of names
         if t.kind != 'dense' or len(st[1]) != t.n or len(set(st[1])) != t.n: raise Precond()
-        return t.replace(headers=list(st[1]), plain=False)
-    if k == 'headmap':                     # dense: name -> index mapping given in arbitrary order
+        return t.replace(headers={h: i for i, h in enumerate(st[1])}, plain=False)
+    if k == 'headmap':                     # dense: name -> index mapping in arbitrary order; may leave columns unnamed, may name one twice
         if t.kind != 'dense': raise Precond()
         m = dict(_pairs(st[1]))
-        if sorted(m.values()) != list(range(t.n)): raise Precond()
-        inv = {i: h for h, i in m.items()}
-        return t.replace(headers=[inv[i] for i in range(t.n)], plain=False)
+        if len(m) != len(st[1]) or any(not (0 <= i < t.n) for i in m.values()): raise Precond()
+        return t.replace(headers=m, plain=False)
     if k == 'shead':                       # sparse: name -> underlying key
         if t.kind != 'sparse' or not t.raw_int_keys: raise Precond()
         m = dict(_pairs(st[1])); inv = {v: h for h, v in m.items()}
@@ -185,14 +195,16 @@ def m_apply(t: Tbl, st):
                 fs = [ENC[e] for e in spec]
             else:
                 m = dict(_pairs(spec))
-                fs = []
-                for i in range(t.n):
-                    h = t.headers[i] if t.headers else None
-                    if any(isinstance(kk, str) for kk in m) and not t.headers: raise Precond('by-name needs headers upstream')
-                    if any(isinstance(kk, str) and kk not in t.headers for kk in m): raise Precond()
-                    if any(isinstance(kk, int) and not (0 <= kk < t.n) for kk in m): raise Precond()
-                    if h in m and i in m: raise Precond('ambiguous')
-                    fs.append(ENC[m[h]] if h in m else ENC[m[i]] if i in m else None)
+                fs = [None] * t.n
+                for kk, e in m.items():
+                    if isinstance(kk, str):
+                        if not t.headers or kk not in t.headers: raise Precond('by-name needs that header upstream')
+                        c = t.headers[kk]
+                    else:
+                        if not (0 <= kk < t.n): raise Precond()
+                        c = kk
+                    if fs[c] is not None: raise Precond('one column named twice')
+                    fs[c] = ENC[e]
             rows = [[(f(v) if f else v) for f, v in zip(fs, r)] for r in t.rows]
             return t.replace(rows=rows, plain=False)
         else:
@@ -223,7 +235,7 @@ def m_apply(t: Tbl, st):
                 if t.kind == 'dense':
                     if isinstance(key, str):
                         if not t.headers or key not in t.headers: raise Precond()
-                        c = t.headers.index(key)
+                        c = t.headers[key]
                     else:
                         if not (0 <= key < t.n): raise Precond()
                         c = key
@@ -238,7 +250,7 @@ def m_apply(t: Tbl, st):
             for c in cols:
                 if isinstance(c, str):
                     if not t.headers or c not in t.headers: raise Precond()
-                    dropc.add(t.headers.index(c))
+                    dropc.add(t.headers[c])
                 else:
                     if not (0 <= c < t.n): raise Precond()
                     dropc.add(c)
@@ -246,7 +258,7 @@ def m_apply(t: Tbl, st):
             if len(dropc) >= t.n: raise Precond('all columns dropped')
             keepc = [i for i in range(t.n) if i not in dropc]
             rows = [[t.rows[i][c] for c in keepc] for i in keep_rows]
-            hdr = [t.headers[c] for c in keepc] if t.headers else None
+            hdr = {h: keepc.index(i) for h, i in t.headers.items() if i in keepc} if t.headers is not None else None
             return t.replace(rows=rows, headers=hdr, n=len(keepc), plain=(t.plain and not cols),
                              missing=[t.missing[i] for i in keep_rows] if t.missing else None)
         else:
@@ -260,7 +272,7 @@ def m_apply(t: Tbl, st):
         if t.kind == 'dense':
             if isinstance(key, str):
                 if not t.headers or key not in t.headers: raise Precond()
-                ind = t.headers.index(key)
+                ind = t.headers[key]
             else:
                 if not (0 <= key < t.n): raise Precond()
                 ind = key
@@ -330,11 +342,14 @@ def stage_options(t: Tbl, wide: bool):
     out = []
     if t.label is not None or not t.rows: return out
     if t.kind == 'dense':
-        n, H = t.n, t.headers
+        n, H = t.n, (list(t.headers) if t.headers else t.headers)      # H: the header NAMES (not necessarily one per column)
         # header assignment
         if H is None:
             out.append(['head', NAMES[:n]])
-            if n >= 2: out.append(['headmap', [[NAMES[i], i] for i in list(range(n - 1, -1, -1))]])     # a mapping listed in another order than the columns
+            if n >= 2:
+                out.append(['headmap', [[NAMES[i], i] for i in list(range(n - 1, -1, -1))]])     # a mapping listed in another order than the columns
+                out.append(['headmap', [[NAMES[i], i] for i in range(n) if i != (1 if n >= 3 else 0)]])     # partial: one column (a gap) stays unnamed
+                out.append(['headmap', [[NAMES[i], i] for i in range(n)] + [['z', 0]]])                     # column 0 has two names
         elif wide:
             out.append(['head', NAMES2[:n]])
         # per-column encoding
@@ -344,13 +359,14 @@ def stage_options(t: Tbl, wide: bool):
         if H:
             out.append(['enc', 'dict', [[H[-1], 'A']]])
             if wide and n >= 2: out.append(['enc', 'dict', [[H[0], 'B'], [n - 1, 'A']]])
+            if len(H) > n: out.append(['enc', 'dict', [[H[-1], 'B']]]); out.append(['enc', 'dict', [[H[0], 'A']]])
         # column / row dropping
         if n >= 2:
             for i in range(n): out.append(['drop', [i], None])
             if n >= 3: out.append(['drop', [0, n - 1], None])
             if H:
-                for i in range(n): out.append(['drop', [H[i]], None])
-                if wide and n >= 3: out.append(['drop', [H[1], n - 1], None])
+                for h in H: out.append(['drop', [h], None])
+                if wide and n >= 3 and len(H) >= 2: out.append(['drop', [H[1], n - 1], None])
         out.append(['drop', [], ['eqrow', 0, 0]])
         if len(t.rows) >= 2: out.append(['drop', [], ['eqrow', n - 1, len(t.rows) - 1]])
         if H: out.append(['drop', [], ['eqrow', H[-1], 0]])
@@ -361,7 +377,7 @@ def stage_options(t: Tbl, wide: bool):
         # label selection
         for i in range(n): out.append(['label', i, TIPES[i % 3]])
         if H:
-            for i in range(n): out.append(['label', H[i], TIPES[(i + 1) % 3]])
+            for i, h in enumerate(H): out.append(['label', h, TIPES[(i + 1) % 3]])
         if t.plain and any(isinstance(v, Categorical) for v in t.rows[0]):
             for tp in ('onehot', 'onehot_tuple', 'string'): out.append(['cat', tp])
     else:
@@ -419,7 +435,7 @@ SRC_KIND = {'dl': 'dense lists', 'dc': 'dense lists with Categorical', 'sk': 'sp
             'sc': 'sparse dicts with Categorical', 'ad': 'ARFF dense', 'as': 'ARFF sparse', 'aq': 'ARFF dense (mixed quoting)',
             'lz': 'LazyDense rows', 'lzs': 'LazySparse rows', 'lzr': 'LazyDense rows (other header order)',
             'ae': 'ARFF dense (special cells)', 'aes': 'ARFF sparse (special cells)',
-            'adt': 'ARFF dense (tab separated)', 'aet': 'ARFF dense (special cells, tab separated)'}
+            'aq4': 'ARFF dense (4 lines, mixed quoting)', 'adt': 'ARFF dense (tab separated)', 'aet': 'ARFF dense (special cells, tab separated)'}
 
 # re-use cases: the SAME filter objects are applied to table 1, then table 2, then table 1 again
 REUSE_GROUPS = [['dl', 'ad', 'lz', 'lzr', 'aq', 'ae', 'adt'],        # dense: unheaded / headed / other header order / other names
